@@ -562,3 +562,69 @@ def summarized(fn):
             _SUMMARY_CACHE[key] = (EX.summarize(lambda: fn(*a, **k)), a)
         return _SUMMARY_CACHE[key][0]
     return wrapper
+
+
+# ---------------------------------------------------------------- additions for the parse_path probe
+def _slice(self, a, b):
+    """s[a:b] with concrete a >= 0 and b concrete or a z3 Int (clipped to the length)"""
+    b = b if z3.is_expr(b) else z3.IntVal(b)
+    hi = z3.If(b < self.n, b, self.n)
+    n = z3.If(hi - a < 0, 0, hi - a)
+    return SymStr([self.c[a + j] for j in range(self.m - a)] or [0], n) if a < self.m else SymStr([0], 0)
+
+
+def _getitem(self, i):
+    if isinstance(i, int):
+        idx = self.n + i if i < 0 else z3.IntVal(i)
+        return SymStr([self.at(idx)], 1)
+    if isinstance(i, slice) and i.step is None:
+        a = i.start or 0
+        assert isinstance(a, int) and a >= 0
+        if i.stop is None:
+            return _slice(self, a, self.n)
+        if isinstance(i.stop, int) and i.stop < 0:
+            return _slice(self, a, self.n + i.stop)
+        return _slice(self, a, i.stop)
+    raise TypeError("symx: unsupported index")
+
+
+def _upper(self):
+    return SymStr([z3.If(z3.And(z3.UGE(c, 97), z3.ULE(c, 122)), c - 32, c) for c in self.c], self.n)
+
+
+SymStr.__getitem__ = _getitem
+SymStr.upper = _upper
+SymStr.__format__ = lambda self, spec: "<sym>"
+SymStr.__str__ = lambda self: "<sym>"
+
+
+def _split(self, s):
+    """re.split with capture groups; forks on where separators are (list length must be concrete)"""
+    if isinstance(s, str):
+        return self.real.split(s)
+    assert self.tree.getwidth()[0] >= 1
+    out, seg, pos = [], 0, 0
+    for i in range(s.m):
+        if i < pos:
+            continue
+        if not EX.decide(i < s.n):
+            break
+        alts = self._seq(s, list(self.tree), 0, i, False)
+        hit = None
+        for (g, j, caps) in alts:
+            if EX.decide(g):
+                hit = (j, caps)
+                break
+        if hit is None:
+            continue
+        j, caps = hit
+        out.append(_slice(s, seg, i))
+        for gid in sorted(caps):
+            a, b = caps[gid]
+            out.append(_slice(s, a, b))
+        pos = seg = j
+    out.append(_slice(s, seg, s.n))
+    return out
+
+
+SymPattern.split = _split
